@@ -291,7 +291,7 @@ def run_harness_cases(cx, label, tokstrings, expected=None):
     t0 = time.time()
     nv.harness("nv-grammar", ["g-run", "--meta", cx.meta_path, "--cases", inp, "--seed", str(cx.seed), "--out", out])
     nv.log("harness g-run %s: %d cases, %.1fs" % (label, len(tokstrings), time.time() - t0))
-    rows = nv.read_ndjson_text(open(out).read())
+    rows = nv.read_ndjson_text(open(out, encoding="utf-8").read())
     summ = rows.pop()
     assert summ.get("summary") and summ["cases"] == len(tokstrings) == len(rows)
     cx.variants = summ["variants"]
@@ -334,7 +334,7 @@ def lexer_binding(cx):
     """every spelling of Lexer.tla's table is exactly one token of the intended kind in the real tokenizer"""
     out = os.path.join(cx.sc, "spell.ndjson")
     nv.harness("nv-grammar", ["spell-check", "--meta", cx.meta_path, "--out", out])
-    rows = nv.read_ndjson_text(open(out).read())
+    rows = nv.read_ndjson_text(open(out, encoding="utf-8").read())
     for r in rows:
         k, s, tk = r["k"], r["s"], r["tk"]
         cx.rep.add("evaluations", 1)
@@ -456,7 +456,7 @@ def g_literals(cx, plan):
         out = os.path.join(cx.sc, "litout_%s.ndjson" % charset)
         nv.write_ndjson(inp, [{"s": c["s"]} for c in cases])
         nv.harness("nv-grammar", ["literals", "--cases", inp, "--out", out])
-        rows = nv.read_ndjson_text(open(out).read())
+        rows = nv.read_ndjson_text(open(out, encoding="utf-8").read())
         lits = 0
         for c, r in zip(cases, rows):
             assert c["s"] == r["s"]
@@ -575,7 +575,7 @@ def self_tests(cx, jpaths):
     out = os.path.join(cx.sc, "sx_out.ndjson")
     nv.write_ndjson(inp, [{"o": o} for o in samples])
     nv.harness("nv-grammar", ["sexpr-to-tree", "--in", inp, "--out", out])
-    rust = nv.read_ndjson_text(open(out).read())
+    rust = nv.read_ndjson_text(open(out, encoding="utf-8").read())
     bad = [o for o, t in zip(samples, rust) if outcome_tree(o) != t]
     rep.notes["selftest_normalisers_agree_on"] = len(samples) - len(bad)
     if bad or not samples:
